@@ -681,6 +681,33 @@ theorem stepping_refines_reference (env : Env) (initial : Machine) (bpsRel : Lis
     exact ⟨dF, exF, by simpa using h1, tally_of_book initial bpsRel cs m w dF exF _ hb⟩
   · exact hfinal
 
+/-- The same, read off `runLoop` directly for a session ended by `exit`: the reference ends with
+`exit` on the same machine and world, after the same number of instructions, with the same
+event log. -/
+theorem stepping_refines_reference_done (env : Env) (initial : Machine) (bpsRel : List Word) (cs : List Command)
+    (hcs : ∀ x ∈ cs, InAlphabet x = true) (m : Machine) (w : World) (n f : Nat) (hnf : n ≤ f)
+    (d : Dbg) (m' : Machine) (w' : World) (ex : List Word)
+    (hrun : runLoop env n true (newDbg initial bpsRel (cs ++ [.exit])) m w [] = .done true d m' w' ex) :
+    (refSession env f initial bpsRel cs m w).final = .exited m' w' ∧
+    ex.length = (refSession env f initial bpsRel cs m w).executed ∧
+    d.cmdAt.reverse = (refSession env f initial bpsRel cs m w).log.map (·.executed) := by
+  have hfst := runObs_fst env n (session initial bpsRel cs m w)
+  have hrun' : (runObs env n (session initial bpsRel cs m w)).1 = .done true d m' w' ex := by
+    rw [hfst]; exact hrun
+  have ha := stepping_refines_reference env initial bpsRel cs hcs m w n f hnf (by rw [hrun']; rfl)
+  unfold Agree at ha
+  cases hR : (refSession env f initial bpsRel cs m w).final <;> rw [hR] at ha <;> simp only at ha
+  · obtain ⟨d2, ex2, h1, ht⟩ := ha
+    rw [h1] at hrun'
+    simp only [DbgRun.done.injEq, true_and] at hrun'
+    obtain ⟨rfl, rfl, rfl, rfl⟩ := hrun'
+    exact ⟨rfl, ht.executed, ht.cmdAt⟩
+  · obtain ⟨d2, ex2, h1, _⟩ := ha
+    rw [h1] at hrun'; cases hrun'
+  · rw [ha] at hrun'; cases hrun'
+  · obtain ⟨d2, ex2, h1, _⟩ := ha
+    rw [h1] at hrun'; cases hrun'
+
 /-- **C10 — refinement, reference ⇒ model.** If the reference run ends (all commands done and
 `exit`, or an instruction ended the process), then there is a number of iterations after which
 every model session has ended, in agreement with it. -/
@@ -738,5 +765,317 @@ theorem reference_fuel_refines_stepping (env : Env) (initial : Machine) (bpsRel 
   · unfold Agree
     rw [hfu]
     exact ⟨dF, exF, by simpa [runObs] using e1, ht⟩
+
+/-! ### Fuel exhaustion on the model side -/
+
+theorem runObs_add (env : Env) : ∀ (n k : Nat) (c : Cfg) (a : Bool) (d : Dbg) (m : Machine) (w : World)
+    (ex : List Word) (sh : List Entry), runObs env n c = (.fuel a d m w ex, sh) →
+    runObs env (n + k) c = runObs env k ⟨a, d, m, w, ex, sh⟩
+  | 0, k, c, a, d, m, w, ex, sh, h => by
+    simp only [runObs, Prod.mk.injEq, DbgRun.fuel.injEq] at h
+    obtain ⟨⟨h1, h2, h3, h4, h5⟩, h6⟩ := h
+    obtain ⟨att, d0, m0, w0, ex0, sh0⟩ := c
+    simp only at h1 h2 h3 h4 h5 h6
+    subst h1 h2 h3 h4 h5 h6
+    rw [Nat.zero_add]
+  | n + 1, k, c, a, d, m, w, ex, sh, h => by
+    have e : n + 1 + k = (n + k) + 1 := by omega
+    rw [e]
+    conv => lhs; unfold runObs
+    conv at h => lhs; unfold runObs
+    cases hi : iter env c.att c.d c.m c.w with
+    | cont a1 d1 m1 w1 e1 =>
+      rw [hi] at h
+      exact runObs_add env n k _ a d m w ex sh h
+    | done a1 d1 m1 w1 => rw [hi] at h; simp at h
+    | exit code a1 d1 m1 w1 e1 => rw [hi] at h; simp at h
+    | panic s1 => rw [hi] at h; simp at h
+
+theorem note_suffix (att : Bool) (d d' : Dbg) (m : Machine) (w : World) (sh : List Entry) :
+    ∃ p, note att d d' m w sh = p ++ sh := by
+  unfold note
+  split
+  · exact ⟨_, rfl⟩
+  · exact ⟨[], rfl⟩
+
+/-- Entries are only ever added. -/
+theorem runObs_sh_suffix (env : Env) : ∀ (k : Nat) (c : Cfg), ∃ pre, (runObs env k c).2 = pre ++ c.sh
+  | 0, c => ⟨[], rfl⟩
+  | k + 1, c => by
+    unfold runObs
+    cases hi : iter env c.att c.d c.m c.w with
+    | cont a1 d1 m1 w1 e1 =>
+      obtain ⟨p, hp⟩ := note_suffix c.att c.d d1 c.m c.w c.sh
+      obtain ⟨q, hq⟩ := runObs_sh_suffix env k ⟨a1, d1, m1, w1, pushExec e1 c.ex, note c.att c.d d1 c.m c.w c.sh⟩
+      exact ⟨q ++ p, by simp only; rw [hq, hp, List.append_assoc]⟩
+    | done a1 d1 m1 w1 => exact note_suffix c.att c.d d1 c.m c.w c.sh
+    | exit code a1 d1 m1 w1 e1 => exact note_suffix c.att c.d d1 c.m c.w c.sh
+    | panic s1 => exact ⟨[], rfl⟩
+
+/-- **C10 — fuel exhaustion on the model side.** A model session cut off after `n` iterations
+(whatever it was doing) has so far shown the user a PREFIX of the reference's log (counts and
+machines), for every reference fuel `f ≥ n` — the cut-off session is on the reference's path.
+(Where it stands is `paused_machine_on_trajectory`. RTI's `todo!()` is excluded: the model's
+record of a panicking session is not compared.) -/
+theorem stepping_fuel_prefix (env : Env) (initial : Machine) (bpsRel : List Word) (cs : List Command)
+    (hcs : ∀ x ∈ cs, InAlphabet x = true) (m : Machine) (w : World) (n f : Nat) (hnf : n ≤ f) (hf : 0 < f)
+    (a : Bool) (d : Dbg) (m' : Machine) (w' : World) (ex : List Word) (sh : List Entry)
+    (hrun : runObs env n (session initial bpsRel cs m w) = (.fuel a d m' w' ex, sh))
+    (hnp : ∀ s, (refSession env f initial bpsRel cs m w).final ≠ .panic s) :
+    sh.reverse <+: (refSession env f initial bpsRel cs m w).log := by
+  have hs := session_simres env f hf initial bpsRel cs hcs m w
+  unfold SimRes at hs
+  have key : ∀ k r, runObs env (n + k) (session initial bpsRel cs m w) =
+      (r, (refSession env f initial bpsRel cs m w).log.reverse) →
+      sh.reverse <+: (refSession env f initial bpsRel cs m w).log := by
+    intro k r hk
+    rw [runObs_add env n k _ a d m' w' ex sh hrun] at hk
+    obtain ⟨pre, hpre⟩ := runObs_sh_suffix env k ⟨a, d, m', w', ex, sh⟩
+    rw [hk] at hpre
+    simp only at hpre
+    refine ⟨pre.reverse, ?_⟩
+    have := congrArg List.reverse hpre
+    simp only [List.reverse_reverse, List.reverse_append] at this
+    exact this.symm
+  cases hR : (refSession env f initial bpsRel cs m w).final <;> rw [hR] at hs <;>
+    simp only [SimFin, pend_session, List.append_nil] at hs
+  · obtain ⟨k, dF, exF, h1, _⟩ := hs
+    exact key k _ (h1 n)
+  · obtain ⟨k, dF, exF, h1, _⟩ := hs
+    exact key k _ (h1 n)
+  · exact absurd hR (hnp _)
+  · obtain ⟨k, dF, exF, h1, hb, hle⟩ := hs
+    have e1 := h1 0
+    rw [Nat.zero_add] at e1
+    have hl := runObs_fuel_len env k _ true dF _ _ exF _ e1
+    have ht := (tally_of_book initial bpsRel cs m w dF exF _ hb).executed
+    simp only [session, List.length_nil] at hl
+    have hkn : n ≤ k := by omega
+    apply key (k - n) (.fuel true dF _ _ exF)
+    rw [show n + (k - n) = k by omega, e1]
+    rfl
+
+/-! ### What the reference promises (facts about `Spec/RefDebug.lean` alone) -/
+
+/-- When `runUntil` pauses, at least one instruction was executed and the machine shown was
+reached by executing the instruction at some `mp`, after which the command's stop condition or
+`interrupt` held. -/
+theorem runUntil_paused (so mi : Bool) (stop : Word → Nat → Machine → Bool) (bps : BpSet) :
+    ∀ (f j : Nat) (m : Machine) (w : World) (j' : Nat) (m' : Machine) (w' : World),
+    runUntil so mi stop bps f j m w = .paused j' m' w' →
+    j < j' ∧ ∃ mp wp, RefDebug.step so mi mp wp = .ok m' w' ∧
+      (stop (mp.read mp.pc) j' m' = true ∨ interrupt bps m' = true)
+  | 0, j, m, w, j', m', w', h => by simp [runUntil] at h
+  | f + 1, j, m, w, j', m', w', h => by
+    unfold runUntil at h
+    cases hx : RefDebug.step so mi m w with
+    | ok m1 w1 =>
+      rw [hx] at h
+      simp only at h
+      split at h
+      · rename_i hc
+        simp only [Out.paused.injEq] at h
+        obtain ⟨rfl, rfl, rfl⟩ := h
+        exact ⟨by omega, m, w, hx, by simpa using hc⟩
+      · obtain ⟨h1, h2⟩ := runUntil_paused so mi stop bps f (j + 1) m1 w1 j' m' w' h
+        exact ⟨by omega, h2⟩
+    | exit c w1 => rw [hx] at h; cases h
+    | panic s1 => rw [hx] at h; cases h
+
+/-- `step into`: never more than the count. -/
+theorem runUntil_count_le (so mi : Bool) (bps : BpSet) (K : Nat) :
+    ∀ (f j : Nat) (m : Machine) (w : World) (j' : Nat) (m' : Machine) (w' : World), j < K →
+    runUntil so mi (fun _ n _ => n == K) bps f j m w = .paused j' m' w' → j' ≤ K
+  | 0, j, m, w, j', m', w', _, h => by simp [runUntil] at h
+  | f + 1, j, m, w, j', m', w', hj, h => by
+    unfold runUntil at h
+    cases hx : RefDebug.step so mi m w with
+    | ok m1 w1 =>
+      rw [hx] at h
+      simp only at h
+      split at h
+      · simp only [Out.paused.injEq] at h
+        omega
+      · rename_i hc
+        have hne : ¬ (j + 1 = K) := by
+          intro e; apply hc; simp [e]
+        exact runUntil_count_le so mi bps K f (j + 1) m1 w1 j' m' w' (by omega) h
+    | exit c w1 => rw [hx] at h; cases h
+    | panic s1 => rw [hx] at h; cases h
+
+/-- A resuming command that pauses was either refused on the spot (HALT or outside user space at
+the address where it was issued: nothing executed) or ran `runUntil` for at least one instruction. -/
+theorem resume_paused (so mi : Bool) (stop : Word → Nat → Machine → Bool) (bps : BpSet) (f : Nat)
+    (m : Machine) (w : World) (j' : Nat) (m' : Machine) (w' : World)
+    (h : resume so mi stop bps f m w = .paused j' m' w') :
+    (j' = 0 ∧ m' = m ∧ w' = w ∧ interrupt bps m = true) ∨
+    (0 < j' ∧ runUntil so mi stop bps f 0 m w = .paused j' m' w') := by
+  unfold resume at h
+  split at h
+  · rename_i hc
+    simp only [Out.paused.injEq] at h
+    obtain ⟨rfl, rfl, rfl⟩ := h
+    left
+    refine ⟨rfl, rfl, rfl, ?_⟩
+    unfold interrupt
+    simp only [Bool.or_eq_true] at hc ⊢
+    rcases hc with hc | hc
+    · exact Or.inl (Or.inr hc)
+    · exact Or.inr hc
+  · right
+    exact ⟨(runUntil_paused so mi stop bps f 0 m w j' m' w' h).1, h⟩
+
+/-! ### Corollaries: one command, ANY breakpoint list, any debugger record waiting for a command -/
+
+/-- the debugger's breakpoint list as a set of addresses -/
+def bpsOf (d : Dbg) : BpSet := fun a => (bpGet d.bps a).isSome
+
+/-- A session `x; exit` from any record that is waiting for a command, ending with `exit`: the
+machine shown at the end is where the reference's `run` of that command pauses, after as many
+instructions. -/
+theorem single_command (env : Env) (d : Dbg) (m : Machine) (w : World) (ex : List Word) (x : Command)
+    (hx : InAlphabet x = true) (hs : d.status = .wait) (hc : d.cmds = [x, .exit])
+    (n : Nat) (dF : Dbg) (m' : Machine) (w' : World) (exF : List Word)
+    (hrun : runLoop env n true d m w ex = .done true dF m' w' exF) :
+    ∃ f j, run env.stackOn env.minimal (bpsOf d) f m w (toRef env (origOf d) x) = .paused j m' w' ∧
+      exF.length = ex.length + j := by
+  have hk := preamble_keep d m
+  have hsim := session_sim env (n + d.nexec + 1) (by omega) (origOf d) [x] (by simpa using hx) (bpsOf d)
+    ⟨true, d, m, w, ex, []⟩ (preamble d m) _ rfl (asks_of_wait env d m w (preamble_wait d m hs))
+    (by rw [hk.1.cmds, hc]; rfl) (by rw [hk.1.bps]; intro a; rfl) hk.2.1
+    (by show d.ncmds ≤ (preamble d m).ncmds; rw [hk.1.ncmds]; exact Nat.le_refl _)
+    (by show (preamble d m).initial.pc = _; rw [hk.1.initial]; rfl)
+  have hfin : isFuel (runObs env n ⟨true, d, m, w, ex, []⟩).1 = false := by
+    rw [runObs_fst]; show isFuel (runLoop env n true d m w ex) = false; rw [hrun]; rfl
+  have hfinal := sim_final hsim n (by show n + d.nexec ≤ _; omega) hfin
+  simp only [List.map_cons, List.map_nil, runScript_cons] at hfinal
+  refine ⟨n + d.nexec + 1, ?_⟩
+  cases hrn : run env.stackOn env.minimal (bpsOf d) (n + d.nexec + 1) m w (toRef env (origOf d) x) with
+  | paused j m'' w'' =>
+    rw [hrn] at hfinal
+    simp only [contRef, runScript, Result.cons] at hfinal
+    obtain ⟨dF', exF', h1, hb⟩ := hfinal
+    have h2 := congrArg Prod.fst h1
+    rw [runObs_fst] at h2
+    simp only at h2
+    rw [hrun] at h2
+    simp only [DbgRun.done.injEq, true_and] at h2
+    obtain ⟨_, rfl, rfl, rfl⟩ := h2
+    refine ⟨j, rfl, ?_⟩
+    have := hb.ex
+    simp only at this
+    omega
+  | ended j code m'' w'' =>
+    rw [hrn] at hfinal
+    simp only [contRef, Result.cons] at hfinal
+    obtain ⟨dF', exF', h1, _⟩ := hfinal
+    have h2 := congrArg Prod.fst h1
+    rw [runObs_fst] at h2
+    simp only at h2
+    rw [hrun] at h2
+    cases h2
+  | panic j s =>
+    rw [hrn] at hfinal
+    simp only [contRef, Result.cons] at hfinal
+    rw [runObs_fst] at hfinal
+    simp only at hfinal
+    rw [hrun] at hfinal
+    cases hfinal
+  | fuel j m'' w'' =>
+    rw [hrn] at hfinal
+    simp only [contRef, Result.cons] at hfinal
+
+/-- **`step into N` with breakpoints present.** From a debugger waiting for a command, with any
+breakpoint list, `step into k` (k ≥ 1) executes `j ≤ k` instructions, and fewer than `k` only if
+the machine it then shows is interrupted: a breakpoint at its PC, HALT at its PC, or PC outside
+user space (when `j = 0`: the command was refused because that already held where it was issued). -/
+theorem step_into_exact_with_breakpoints (env : Env) (d : Dbg) (m : Machine) (w : World) (ex : List Word)
+    (k : Word) (hk : k ≠ 0#16) (hs : d.status = .wait) (hc : d.cmds = [.stepInto k, .exit])
+    (n : Nat) (dF : Dbg) (m' : Machine) (w' : World) (exF : List Word)
+    (hrun : runLoop env n true d m w ex = .done true dF m' w' exF) :
+    ∃ j, exF.length = ex.length + j ∧ j ≤ k.toNat ∧ (j = k.toNat ∨ interrupt (bpsOf d) m' = true) := by
+  obtain ⟨f, j, hr, hl⟩ := single_command env d m w ex (.stepInto k) (by simpa [InAlphabet] using hk) hs hc
+    n dF m' w' exF hrun
+  have hk1 : k.toNat ≠ 0 := fun h0 => hk (BitVec.eq_of_toNat_eq (by simpa using h0))
+  have hK : max k.toNat 1 = k.toNat := by omega
+  refine ⟨j, hl, ?_⟩
+  simp only [toRef, run] at hr
+  rcases resume_paused _ _ _ _ _ _ _ _ _ _ hr with ⟨rfl, rfl, _, hi⟩ | ⟨hj, hru⟩
+  · exact ⟨by omega, Or.inr hi⟩
+  · have hle := runUntil_count_le env.stackOn env.minimal (bpsOf d) (max k.toNat 1) f 0 m w j m' w' (by omega) hru
+    obtain ⟨_, mp, wp, _, hstop | hi⟩ := runUntil_paused _ _ _ _ f 0 m w j m' w' hru
+    · simp only [stepIntoStop, beq_iff_eq] at hstop
+      exact ⟨by omega, Or.inl (by omega)⟩
+    · exact ⟨by omega, Or.inr hi⟩
+
+/-- **`step` on JSR/JSRR/CALL** runs the subroutine and pauses at the address following the call
+— or earlier, at an interrupted machine; **`step` on anything else** executes exactly one
+instruction (none if refused at HALT / outside user space). -/
+theorem step_over_call_pauses_at_return (env : Env) (d : Dbg) (m : Machine) (w : World) (ex : List Word)
+    (hs : d.status = .wait) (hc : d.cmds = [.stepOver, .exit])
+    (n : Nat) (dF : Dbg) (m' : Machine) (w' : World) (exF : List Word)
+    (hrun : runLoop env n true d m w ex = .done true dF m' w' exF) :
+    (RefDebug.isCall (m.read m.pc) = true → m'.pc = m.pc + 1 ∨ interrupt (bpsOf d) m' = true) ∧
+    (RefDebug.isCall (m.read m.pc) = false →
+      exF.length = ex.length + 1 ∨ (exF.length = ex.length ∧ m' = m ∧ interrupt (bpsOf d) m = true)) := by
+  obtain ⟨f, j, hr, hl⟩ := single_command env d m w ex .stepOver rfl hs hc n dF m' w' exF hrun
+  simp only [toRef, run] at hr
+  constructor
+  · intro hcall
+    rw [if_pos hcall] at hr
+    rcases resume_paused _ _ _ _ _ _ _ _ _ _ hr with ⟨_, rfl, _, hi⟩ | ⟨_, hru⟩
+    · exact Or.inr hi
+    · obtain ⟨_, mp, wp, _, hstop | hi⟩ := runUntil_paused _ _ _ _ f 0 m w j m' w' hru
+      · exact Or.inl (by simpa [stepOverStop] using hstop)
+      · exact Or.inr hi
+  · intro hcall
+    rw [if_neg (by simp [hcall])] at hr
+    rcases resume_paused _ _ _ _ _ _ _ _ _ _ hr with ⟨rfl, rfl, _, hi⟩ | ⟨hj, hru⟩
+    · exact Or.inr ⟨by omega, rfl, hi⟩
+    · have hle := runUntil_count_le env.stackOn env.minimal (bpsOf d) 1 f 0 m w j m' w' (by omega) hru
+      exact Or.inl (by omega)
+
+/-- **`step out`** (stack feature on) runs until a RET/RETS has executed — the machine shown was
+reached by executing one — or pauses earlier at an interrupted machine. -/
+theorem step_out_stops_after_ret (env : Env) (d : Dbg) (m : Machine) (w : World) (ex : List Word)
+    (hso : env.stackOn = true) (hs : d.status = .wait) (hc : d.cmds = [.stepOut, .exit])
+    (n : Nat) (dF : Dbg) (m' : Machine) (w' : World) (exF : List Word)
+    (hrun : runLoop env n true d m w ex = .done true dF m' w' exF) :
+    interrupt (bpsOf d) m' = true ∨
+    ∃ mp wp, RefDebug.step env.stackOn env.minimal mp wp = .ok m' w' ∧ RefDebug.isRet (mp.read mp.pc) = true := by
+  obtain ⟨f, j, hr, hl⟩ := single_command env d m w ex .stepOut rfl hs hc n dF m' w' exF hrun
+  simp only [toRef, run] at hr
+  rw [if_pos hso] at hr
+  rcases resume_paused _ _ _ _ _ _ _ _ _ _ hr with ⟨_, rfl, _, hi⟩ | ⟨_, hru⟩
+  · exact Or.inl hi
+  · obtain ⟨_, mp, wp, hst, hstop | hi⟩ := runUntil_paused _ _ _ _ f 0 m w j m' w' hru
+    · exact Or.inr ⟨mp, wp, hst, hstop⟩
+    · exact Or.inl hi
+
+/-- **`step out` without the stack feature** (I7) does nothing. -/
+theorem step_out_without_stack (env : Env) (d : Dbg) (m : Machine) (w : World) (ex : List Word)
+    (hso : env.stackOn = false) (hs : d.status = .wait) (hc : d.cmds = [.stepOut, .exit])
+    (n : Nat) (dF : Dbg) (m' : Machine) (w' : World) (exF : List Word)
+    (hrun : runLoop env n true d m w ex = .done true dF m' w' exF) :
+    m' = m ∧ w' = w ∧ exF.length = ex.length := by
+  obtain ⟨f, j, hr, hl⟩ := single_command env d m w ex .stepOut rfl hs hc n dF m' w' exF hrun
+  simp only [toRef, run, hso, Bool.false_eq_true, if_false, Out.paused.injEq] at hr
+  obtain ⟨rfl, rfl, rfl⟩ := hr
+  exact ⟨rfl, rfl, by omega⟩
+
+/-- **`continue`** pauses only at an interrupted machine: a breakpoint at PC, HALT at PC (never
+executed), or PC outside user space. -/
+theorem continue_stops_only_at_interrupt (env : Env) (d : Dbg) (m : Machine) (w : World) (ex : List Word)
+    (hs : d.status = .wait) (hc : d.cmds = [.continue_, .exit])
+    (n : Nat) (dF : Dbg) (m' : Machine) (w' : World) (exF : List Word)
+    (hrun : runLoop env n true d m w ex = .done true dF m' w' exF) :
+    interrupt (bpsOf d) m' = true := by
+  obtain ⟨f, j, hr, hl⟩ := single_command env d m w ex .continue_ rfl hs hc n dF m' w' exF hrun
+  simp only [toRef, run] at hr
+  rcases resume_paused _ _ _ _ _ _ _ _ _ _ hr with ⟨_, rfl, _, hi⟩ | ⟨_, hru⟩
+  · exact hi
+  · obtain ⟨_, mp, wp, _, hstop | hi⟩ := runUntil_paused _ _ _ _ f 0 m w j m' w' hru
+    · simp [continueStop] at hstop
+    · exact hi
 
 end Lace.C10
